@@ -10,6 +10,7 @@ import (
 	"verif/checks/c01"
 	"verif/checks/c02"
 	"verif/checks/c03"
+	"verif/checks/c04"
 	"verif/checks/c05"
 	"verif/checks/c06"
 	"verif/checks/c08"
@@ -32,6 +33,7 @@ var checks = map[string]check{
 	"C01": {"exploration", c01.Run, c01.Replay},
 	"C02": {"exploration", c02.Run, c02.Replay},
 	"C03": {"exploration", c03.Run, c03.Replay},
+	"C04": {"exploration", c04.Run, c04.Replay},
 	"C05": {"exploration", c05.Run, c05.Replay},
 	"C06": {"model_checking", c06.Run, c06.Replay},
 	"C08": {"exploration", c08.Run, c08.Replay},
